@@ -283,6 +283,31 @@ def sequence_twins(chk, ks, three, small=False, bare=False):
     return compared
 
 
+def velocity_twins(chk, ks):
+    """the backward velocity calculation with the final speed typed as a whole number of the unit in use (3 m/s, 3000 mm/s, 118 inch/s ...): stand speeds scale"""
+    from pyroll.core import Roll, RollPass, Transport, RoundGroove, CircularOvalGroove, PassSequence, Profile
+
+    def run_k(k, speed):
+        seq = PassSequence([
+            RollPass(label="P0", roll=Roll(groove=CircularOvalGroove(depth=8e-3 * k, r1=6e-3 * k, r2=40e-3 * k), nominal_radius=160e-3 * k), gap=2e-3 * k),
+            Transport(label="T0", duration=1),
+            RollPass(label="P1", roll=Roll(groove=RoundGroove(r1=1e-3 * k, r2=12.5e-3 * k, depth=11.5e-3 * k), nominal_radius=160e-3 * k), gap=2e-3 * k)])
+        ip = Profile.round(diameter=30e-3 * k, temperature=1473.15, material=["C45", "steel"], length=1 * k)
+        with RollPass.Profile.flow_stress(flow_stress):
+            seq.solve_velocities_backward(ip, final_speed=speed, final_cross_section_area=seq.roll_passes[-1].usable_cross_section.area)
+        return [float(p.velocity) for p in seq.roll_passes]
+    base = run_k(1.0, 3)
+    for k in ks:
+        speed = 3 * k
+        if abs(speed - round(speed)) > 1e-9:
+            continue
+        got = run_k(k, int(round(speed)))
+        chk.cov['evaluations'] += 1
+        if any(abs(g / k - b) > 1e-6 * abs(b) for g, b in zip(got, base)):
+            return chk.fail('hook-scale', f"backward velocity calculation, final speed 3 (metres) / {int(round(speed))} (lengths scaled by {k}), both typed as integers: stand speeds "
+                            f"{[g / k for g in got]} vs {base}", {'k': k, 'final_speed': int(round(speed))})
+
+
 def astm_finding(chk):
     """the known unit-bound formula: grain size in metres is built into astm_grain_size_number"""
     from pyroll.core import Profile
@@ -317,6 +342,8 @@ def run(chk):
     n2 += sequence_twins(chk, [1000.0, 100.0, 39.37007874015748], three='flat')
     for base in (0.1, 0.03, 0.01, 10.0, 40.0):      # wire ... heavy sections: small products and large numbers in small units
         n1 += sequence_twins(chk, ks_seq[:1] + [100.0], three=False, small=base)
+    if not chk.failures:
+        velocity_twins(chk, [1000.0, 100.0])
     spline_twins(chk, ks_geo)
     # fail closed: an implementation that left the translatable fragment is no longer covered by the theorem
     allow = set(open(os.path.join(os.path.dirname(os.path.dirname(os.path.abspath(__file__))), 'opaque_allowlist.txt')).read().split())
